@@ -17,8 +17,8 @@ RULE = (
     "probe document: (1) part specs (map_value / list_value / map_or_list_value or default type; key / index / value "
     "as long forms or one dotted shorthand per kind; labels) via ContainerValue.from_spec; (2) path specs "
     "{'path[.datum][.multi]': parts} with suffix aliases, either suffix order, any letter case via DataPath.from_spec, "
-    "and bare part lists via from_part_specs; (3) delimiter strings ('/', '.', '|', '::') with integer- and "
-    "float-looking tokens via DataPath.from_str; (4) rule specs with cast {'str': 'bool'|'int'} and doc as str / list / "
+    "and bare part lists via from_part_specs; (3) delimiter strings ('/', '.', '|', '::', '->') with integer- and "
+    "float-looking tokens, the empty token and tokens that begin / end with a character of the delimiter via DataPath.from_str; (4) rule specs with cast {'str': 'bool'|'int'} and doc as str / list / "
     "mapping (description and examples each optional) via Rule.from_spec, incl. the doc normal form; (5) the same "
     "schema as YAML text (block and flow style, ruamel safe dump; only texts that safe_load back type-exactly) via "
     "Schema.from_yaml and from_yaml_file. Non-trivial: the spec uses >=2 of {shorthand, non-default spelling, label, "
@@ -239,7 +239,7 @@ def body_str(case):
     out.sample = f"from_str({s!r}, {delim!r}) on {show(doc,200)}"
     if len(s) % 2:
         # the same text is first parsed under ANOTHER delimiter (what a string means depends on the delimiter given now)
-        for d2 in (".", "/", "|", "::"):
+        for d2 in DELIMS:
             if d2 != delim:
                 try:
                     ns.d.DataPath.from_str(s, delimiter=d2)
